@@ -13,7 +13,7 @@ fn native_dir() -> String {
 
 pub fn scenarios_for(prop: &str) -> Vec<&'static str> {
     match prop {
-        "C04" => vec!["sync_rendezvous", "small_payload_paths", "drain_blocked_senders", "zst_and_padding", "async_send_sync_recv", "async_recv_busy_poll", "async_send_busy_poll"],
+        "C04" => vec!["sync_rendezvous", "small_payload_paths", "drain_blocked_senders", "zst_and_padding", "async_send_sync_recv", "async_recv_busy_poll", "async_send_busy_poll", "drain_async_pending_senders", "iter_until_disconnect", "timed_handoff_races", "unbounded_burst", "zst_with_drop"],
         _ => vec![
             "sync_rendezvous",
             "sync_mpsc_cap1",
@@ -30,6 +30,17 @@ pub fn scenarios_for(prop: &str) -> Vec<&'static str> {
             "zst_and_padding",
             "async_recv_busy_poll",
             "async_send_busy_poll",
+            "realtime_contention",
+            "drain_async_pending_senders",
+            "iter_until_disconnect",
+            "clone_convert_drop_race",
+            "close_with_buffered_and_blocked",
+            "timed_handoff_races",
+            "zst_with_drop",
+            "stream_dropped_midway",
+            "async_mpmc_cap1",
+            "unbounded_burst",
+            "last_receiver_drop_releases_senders",
         ],
     }
 }
@@ -86,8 +97,25 @@ pub fn stage(prop: &str, tier: &str, base_seed: u64) -> (Vec<Value>, Value, bool
     let mut per = serde_json::Map::new();
     let mut total = 0u64;
     let mut harness_err = false;
-    for sc in scenarios_for(prop) {
-        let (ok, log, failing, tried) = run_one(sc, &range, None);
+    // scenarios run four at a time (each cargo-miri invocation has ~1 s of start-up during which the
+    // cores idle); results are consumed in the fixed scenario order
+    let scs = scenarios_for(prop);
+    let mut results: Vec<Option<(bool, String, Option<u64>, u64)>> = (0..scs.len()).map(|_| None).collect();
+    for (ci, chunk) in scs.chunks(4).enumerate() {
+        let hs: Vec<_> = chunk
+            .iter()
+            .map(|sc| {
+                let sc = sc.to_string();
+                let range = range.clone();
+                std::thread::spawn(move || run_one(&sc, &range, None))
+            })
+            .collect();
+        for (k, h) in hs.into_iter().enumerate() {
+            results[ci * 4 + k] = Some(h.join().expect("miri runner thread"));
+        }
+    }
+    for (sc, res) in scs.into_iter().zip(results.into_iter()) {
+        let (ok, log, failing, tried) = res.expect("scenario result");
         total += tried;
         per.insert(sc.to_string(), json!({"seeds_tried": tried, "ok": ok}));
         if !ok {
